@@ -880,22 +880,28 @@ fn judge(case: &Case, tgt: Tgt, pipe: Option<&XPipe>, out: &rssl::CompiledPipeli
     // ---- 3. stages
     let mut s_parts = Vec::new();
     let mut f_parts = Vec::new();
-    let want_stages: Vec<&XFn> = pipe.map(|p| p.stages.iter().map(|k| &case.entries[*k]).collect()).unwrap_or_default();
+    // (stage kind as written in the property, the function the name denotes where the block stands)
+    let pipe_index = pipe.and_then(|p| case.pipes.iter().position(|q| std::ptr::eq(q, p)));
+    let want_stages: Vec<(Option<String>, &XFn)> = match (pipe, pipe_index) {
+        (Some(p), Some(pi)) => p.stages.iter().map(|k| (case.entries[*k].stage.clone(), case.stage_xfn(case.stage_fn(pi, *k)))).collect(),
+        (Some(p), None) => p.stages.iter().map(|k| (case.entries[*k].stage.clone(), &case.entries[*k])).collect(),
+        _ => Vec::new(),
+    };
     if out.stages.len() != want_stages.len() {
         fails.push(Fail { class: "stage-count", detail: format!("{} stages reported for {} stage properties", out.stages.len(), want_stages.len()) });
     }
     for (k, st) in out.stages.iter().enumerate() {
         let kind = format!("{:?}", st.stage);
         s_parts.push(format!("{}:{}:{}", kind, st.entry_point, threads_str(st.thread_group_size)));
-        if let Some(w) = want_stages.get(k) {
-            if w.stage.as_deref() != Some(kind.as_str()) || w.threads != st.thread_group_size {
-                fails.push(Fail { class: "stage-record", detail: format!("stage {} reported as {} {:?}, declared {:?} {:?}", k, kind, st.thread_group_size, w.stage, w.threads) });
+        if let Some((wstage, w)) = want_stages.get(k) {
+            if wstage.as_deref() != Some(kind.as_str()) || w.threads != st.thread_group_size {
+                fails.push(Fail { class: "stage-record", detail: format!("stage {} reported as {} {:?}, declared {:?} {:?}", k, kind, st.thread_group_size, wstage, w.threads) });
             }
         }
         let found: Vec<&SrcFunc> = emitted.funcs.iter().filter(|f| f.name == st.entry_point && f.has_body).collect();
         if found.len() != 1 {
             f_parts.push(format!("!missing({})", st.entry_point));
-            let src_name = want_stages.get(k).map(|w| w.name.as_str()).unwrap_or("");
+            let src_name = want_stages.get(k).map(|w| w.1.name.as_str()).unwrap_or("");
             fails.push(Fail {
                 class: if found.is_empty() && !msl && src_name == st.entry_point { "entry-renamed" } else { "entry-not-defined" },
                 detail: format!("stage {} reports entry point `{}` but the emitted source defines {} function(s) of that name (functions: {})",
@@ -1203,7 +1209,8 @@ fn run_case(case: &Case, tgt: Tgt, mode: &Mode, out: &mut Out, hist: &mut Hist) 
         Raw::Ok(ps) => {
             hist.add("outcome=ok");
             let pipes: Vec<Option<&XPipe>> = match mode {
-                Mode::All => case.pipes.iter().map(Some).collect(),
+                // compile() returns the pipelines in the order the file declares them (a block marked `b` comes first)
+                Mode::All => case.file_order().iter().filter_map(|r| if let Root::Pipe(i) = r { Some(Some(&case.pipes[*i])) } else { None }).collect(),
                 Mode::Named(n) => vec![case.pipes.iter().find(|p| &p.name == n)],
                 Mode::NoPipeline => vec![None],
             };
